@@ -11,6 +11,7 @@ Driver for correspondence stream `ten` (property C18).  One request per line:
   acalr <mat A> <tol> maxiter <rnd>                      -> "<log> | <pivots> | <crosses as X>"
   cop  <n> <cop>… <m> <cop-op>…    -> step results joined by " ; "   (CanonicalOperator algebra)
   matricize <full> k | modek <mat> k <full> | aouter <n> <full>…
+  gtaranks (N|thr) <ranks0> <steps: list of per-mode norms>  -> ranks       (skip rule of gta's basis extension)
 tensor   = F <shape> <data> | C <d> <mat>… | T <d> <mat>… <shape> <data> | S <n> <tensor>… | P <n> <tensor>…
 mat      = rows cols <data>
 index    = i <int> | s <oint> <oint> <oint> | l <ints>          (oint = N or int)
@@ -278,6 +279,15 @@ def request : P String := do
       match runCOps env ops [] with
       | some l => pure (" ; ".intercalate l)
       | none => failure
+  | "gtaranks" => do
+      -- ranks after replaying the basis-extension decisions: thr (N = no skip), initial ranks, steps of norms per mode
+      let thr ← tok
+      let thr : Option Rat ← (if thr == "N" then pure none else match (runLine rat thr) with | some q => pure (some q) | none => failure)
+      let r0 ← list nat
+      let steps ← list (list rat)
+      let U0 : List (Mat Q) := r0.map (fun r => Mat.zeros 1 r)
+      let Us := steps.foldl (fun Us nys => (Us.zip nys).map (fun p => gtaExtend thr p.1 (fun _ => 0) p.2)) U0
+      pure (showNats (Us.map (·.cols)))
   | "matricize" => do
       let X ← pFull; let k ← nat
       match X.matricize k with
